@@ -156,8 +156,12 @@ def morgan_generator(
 
     for _ in itertools.repeat(None):
         for ids, nbrs in id_nbrs_tuple_list:
-            # Compute the new hash for each atom based on its neighbors
-            atom_hash[ids] = numpy_int_multiset_hash(atom_hash[nbrs])
+            # Compute the new hash for each atom based on its own color
+            # and the multiset of the colors of its neighbors
+            nbr_hash = numpy_int_multiset_hash(atom_hash[nbrs])
+            atom_hash[ids] = numpy_int_tuple_hash(
+                np.stack((atom_hash[ids], nbr_hash), axis=-1)
+            )
         atom_hash_view = atom_hash.view()
         atom_hash_view.setflags(write=False)
         yield atom_hash_view
